@@ -530,6 +530,8 @@ static const char * const harvested[] = {
     "TEST:TEXT", "TEST:TREEA?", "TEST:TREEB?", "TEXTfunction?",
     /* the same shapes with the optional suffix keyword last (not shipped; witnesses of the trailing-default clause) */
     "TEST#[:NUMbers#]", "TEST#[:NUMbers#]?", "OUTPut#[:MODulation#][:FM#]",
+    /* keywords whose own stem contains digits / '_' next to a numeric-suffix keyword with the same letters (legal mnemonics: 488.2 7.6.1) */
+    "MEASure[:RAIL#]:RAIL3V3?", "OUTPut[:CH#]:CH1Gain", "SENSe[:TEMP#]:TEMP2_MAX#", "TRIGger[:A#]:A1B", "SOURce:RAIL3V3[:RAIL#]", "ROUTe[:BANK#][:BANK2X#]:CLOSe",
 };
 #define NHARV (sizeof harvested / sizeof harvested[0])
 static const char * const harvested_common[] = { "*CLS", "*ESE", "*ESE?", "*ESR?", "*IDN?", "*OPC", "*OPC?", "*RST", "*SRE", "*SRE?", "*STB?", "*TST?", "*WAI" };
